@@ -183,6 +183,18 @@ class Ctx:
         b = self.helper(role)
         return strip_generics(b['path']) if b is not None else default
 
+    def borrow(self, fn, keep):
+        """run another property's rule function and keep only the obligations whose id satisfies `keep` (decided here too)"""
+        saved = self.obs
+        self.obs = []
+        try:
+            fn(self)
+            got = [o for o in self.obs if keep(o.oid)]
+        finally:
+            self.obs = saved
+        self.obs.extend(got)
+        return got
+
     # ---- obligations
     def add(self, oid, anchor, slot, verdict, **kw):
         ob = Ob(self.pid, oid, anchor, slot, verdict, **kw)
